@@ -16,6 +16,6 @@ if [ $SUITE = 1 ]; then
 fi
 # evidence of a run on a patched tree must never replace the committed evidence
 out=$(cd /verif && VERIF_EVIDENCE_SUFFIX=".mutant" ./check "$ID" "$TIER" 2>&1); code=$?
-rm -f /verif/evidence/*.mutant.json
+rm -f /verif/evidence/*.mutant*.json
 echo "$out" | grep -E "VIOLATION|signature|KNOWN|INCONCLUSIVE|held on|violation\(s\)" | head -8
 echo "MUTANT $(basename "$PATCH") $ID $TIER: exit=$code$suite"
